@@ -29,6 +29,7 @@ func init() {
 			c.run("C05-R9", "ORDER/GUARD-DOM: a transfer that stopped reading no longer queues the pump's output", stopLatchRule)
 			c.run("C05-R10", "LAUNCH: pumps and the handlers that wait on what the pumps deliver are started with go", c05Launch)
 			c.run("C05-R11", "TYPESTATE: the transfer worker signals completion last, so the handler gives the session up only when the worker is done", func(c *Ctx) { completionClosedLast(c, "TrzszFilter.", 1) })
+			c.run("C05-S3", "shared with C13-R7: the wrapper's input pump reads the user's side, its output pump the remote side", c13Sides)
 			c.run("C05-S2", "shared with C19-R1: header detection and the five-CAN cancel marker", c19R1)
 			c.run("C05-S1", "shared with C06-R3: the words that mark a finished transfer in scroll-back are the words the servers print (a replayed, finished handshake stays plain output)", c06R3)
 		})
